@@ -19,23 +19,27 @@ func (dp decProp) run(t *testing.T) {
 	for _, o := range dp.vehicles {
 		o := o
 		t.Run(o.vehicle, func(t *testing.T) {
-			rapid.Check(t, func(t *rapid.T) {
-				c := DecCase{Vehicle: o.vehicle, Cfg: genDCfg(t)}
-				if o.vehicle == "dec" {
-					c.Writer = genWriterScript(t, o.faults)
-				}
-				x, err := newDecExec(c)
-				if err != nil {
-					st.class("config-rejected")
-					return
-				}
-				beginCase(dp.prop, o.vehicle, func() any { return x.Case() })
-				genDecHistory(t, x, o)
-				x.finish()
-				endCase()
-				dp.judge(t, st, o.vehicle, x)
-			})
+			rapid.Check(t, dp.body(o, st))
 		})
+	}
+}
+
+func (dp decProp) body(o decOpts, st *propStats) func(t *rapid.T) {
+	return func(t *rapid.T) {
+		c := DecCase{Vehicle: o.vehicle, Cfg: genDCfg(t)}
+		if o.vehicle == "dec" {
+			c.Writer = genWriterScript(t, o.faults)
+		}
+		x, err := newDecExec(c)
+		if err != nil {
+			st.class("config-rejected")
+			return
+		}
+		beginCase(dp.prop, o.vehicle, func() any { return x.Case() })
+		genDecHistory(t, x, o)
+		x.finish()
+		endCase()
+		dp.judge(t, st, o.vehicle, x)
 	}
 }
 
